@@ -175,7 +175,8 @@ type CompareOpts struct {
 	SkipMethod bool
 	SkipStatus bool
 	SkipCodec  bool
-	MetaAsSet  bool // expected pairs must be present (key -> value); extras allowed
+	MetaAsSet  bool                        // expected pairs must be present (key -> value); extras allowed
+	BodyOf     func(socket.Message) []byte // how to read the received body as bytes (default BodyBytes)
 }
 
 // Compare checks a received message against the model and returns a
@@ -221,8 +222,12 @@ func (m Msg) Compare(got socket.Message, o CompareOpts) string {
 	if !o.SkipCodec && got.BodyCodec() != m.Codec {
 		return fmt.Sprintf("body codec: got %d want %d", got.BodyCodec(), m.Codec)
 	}
-	if !bytes.Equal(BodyBytes(got), m.Body) {
-		return fmt.Sprintf("body: got %s want %s", Hex(BodyBytes(got)), Hex(m.Body))
+	bodyOf := BodyBytes
+	if o.BodyOf != nil {
+		bodyOf = o.BodyOf
+	}
+	if gb := bodyOf(got); !bytes.Equal(gb, m.Body) {
+		return fmt.Sprintf("body: got %s want %s", Hex(gb), Hex(m.Body))
 	}
 	if !bytes.Equal(got.XferPipe().IDs(), m.Pipe) {
 		return fmt.Sprintf("xfer pipe: got %x want %x", got.XferPipe().IDs(), m.Pipe)
